@@ -175,6 +175,9 @@ struct OpRes
     bool empty = false;
     long long begin_off = -1, end_off = -1, data_off = -1, rb_off = -1, re_off = -1;
     int front = -1, back = -1, at = -1;
+    int c_front = -1, c_back = -1, c_at = -1, raw_at = -1; // through a const-byte view / through raw()
+    u64 c_size = 0;
+    long long c_data_off = -1;
     bool observed = false;
 };
 
@@ -304,11 +307,19 @@ struct Runner
             r.data_off = reinterpret_cast<u8*>(v.data()) - base;
             r.rb_off = reinterpret_cast<u8*>(v.rbegin().base()) - base;
             r.re_off = reinterpret_cast<u8*>(v.rend().base()) - base;
+            // the same observers through a view over const bytes (a different instantiation)
+            sbepp::detail::dynamic_array_ref<const Byte, Value, Length, E> cv{reinterpret_cast<const Byte*>(frame), nbytes};
+            r.c_size = (u64)cv.size();
+            r.c_data_off = reinterpret_cast<const u8*>(cv.data()) - base;
             if(!v.empty())
             {
                 r.front = (u8)v.front();
                 r.back = (u8)v.back();
                 r.at = (u8)v[(size_type)(pos % v.size())];
+                r.c_front = (u8)cv.front();
+                r.c_back = (u8)cv.back();
+                r.c_at = (u8)cv[(size_type)(pos % cv.size())];
+                r.raw_at = (u8)v.raw()[(size_type)(pos % v.size())];
             }
         }
     }
@@ -659,8 +670,9 @@ void run_plan(Exec& ex, DoOp do_op)
                 if(r.observed)
                 {
                     bool ok = r.size == S && r.sbe_size == S && r.empty == (S == 0) && r.max_size == c.max_size && r.size_bytes == L + S && r.raw_size == S && r.begin_off == (long long)L && r.data_off == (long long)L && r.end_off == (long long)(L + S) && r.rb_off == (long long)(L + S) && r.re_off == (long long)L;
+                    ok = ok && r.c_size == S && r.c_data_off == (long long)L;
                     if(ok && S)
-                        ok = r.front == c.M[0] && r.back == c.M[S - 1] && r.at == c.M[pos % S];
+                        ok = r.front == c.M[0] && r.back == c.M[S - 1] && r.at == c.M[pos % S] && r.c_front == c.M[0] && r.c_back == c.M[S - 1] && r.c_at == c.M[pos % S] && r.raw_at == c.M[pos % S];
                     if(!ok)
                     {
                         ex.fail("observer", op, "an observer disagrees with the vector model (size " + std::to_string(r.size) + " vs " + std::to_string(S) + ")");
@@ -793,6 +805,13 @@ Plan gen_plan(u64 seed, const std::string& prop, const std::string& tier)
     case 3: cap = cfg.range(40, 120); break;
     default: cap = li == 0 ? cfg.range(250, 300) : cfg.range(120, 400); break;
     }
+    bool big_plan = false;
+    if(!capmode && li >= 1 && cfg.chance(1, 40))
+    {
+        // sizes around 65535: carries between the bytes of a multi-byte length prefix
+        cap = 65600;
+        big_plan = true;
+    }
     u64 buf = L + cap;
     if(capmode && cfg.chance(1, 12)) buf = cfg.below(L); // view shorter than the prefix itself
     p.seti("buf", (long long)buf);
@@ -806,6 +825,7 @@ Plan gen_plan(u64 seed, const std::string& prop, const std::string& tier)
     for(auto& b : init) b = (u8)ini.next();
     const u64 lim = std::min<u64>(kLenMax[li], cap);
     u64 s0 = ini.chance(1, 3) ? 0 : ini.chance(1, 4) ? lim : ini.below(lim + 1);
+    if(big_plan) s0 = std::min<u64>(lim, 65520 + ini.below(30));
     if(buf >= L) encode_len(init.data(), L, p.geti("E") != 0, s0);
     p.set("init", "x" + sim::hex(init));
     if(!capmode && seed % 512 == 7)
